@@ -336,6 +336,7 @@ impl Mach {
         let machine: &mut Machine = &mut mbox;
 
         let mut panicked = None;
+        let mut unprintable = false;
 
         match guarded(|| machine.run_query(q)) {
             Err(p) => panicked = Some(p),
@@ -346,7 +347,16 @@ impl Mach {
                 while i < take {
                     before_next(i);
                     match guarded(|| qs.next()) {
-                        Ok(Some(item)) => out.items.push(canon(item)),
+                        // (an answer term the machine cannot even print — an atom that is not
+                        // text — is the machine's failure, not the harness's)
+                        Ok(Some(item)) => match guarded(|| canon(item)) {
+                            Ok(a) => out.items.push(a),
+                            Err(p) => {
+                                unprintable = true;
+                                panicked = Some(p);
+                                break;
+                            }
+                        },
                         Ok(None) => {
                             out.ended = true;
                             break;
@@ -371,7 +381,7 @@ impl Mach {
         }
 
         if let Some(p) = panicked {
-            out.panic = Some(p.text());
+            out.panic = Some(if unprintable { format!("answer-unprintable: {}", p.text()) } else { p.text() });
             self.poisoned = true;
             // state is undefined after a panic; never run its destructors
             self.corpse = Some(ManuallyDrop::new(mbox));
